@@ -35,6 +35,8 @@ structure OConn where
   pend : List String := []       -- tokens of the packets in wire ++ inq
   awaited : Bool := false
   held : Bool := false           -- its handler is inside the OnSubscribe hook (SUBSCRIBE to lc/hold) until `release`
+  cheld : Bool := false          -- client id hc…: internalClose is inside the OnClosed hook until `release`
+  crel : Bool := false           -- … and has been released
 
 structure O where
   fix : Fixes := Fixes.all
@@ -117,6 +119,12 @@ def stepConn (o : O) (i : Nat) : Option O :=
       | a :: rest =>
         -- a handler held in a hook is a handler that is slow: it has taken its packet and does not get on
         if c.held && (a == .hWrite || a == .hWriteSkip) then go rest else
+        -- a client id hc…: the OnClosed hook (first thing internalClose does for a connected client) blocks until `release`
+        if a == .sUnreg && c.cid.startsWith "hc" && c.st.status && !c.crel then
+          (if c.cheld then go rest else
+           match step cfg c.st a with
+           | none => go rest
+           | some _ => some { (setConn o i { c with cheld := true }) with evs := o.evs ++ [s!"closed:{c.cid}"] }) else
         match step cfg c.st a with
         | none => go rest
         | some t =>
@@ -155,7 +163,8 @@ def stepConn (o : O) (i : Nat) : Option O :=
           | .sUnreg =>
             let o1 := setConn o i { c with st := t }
             if c.st.status then
-              some { o1 with subs := o1.subs.filter (fun s => s.1 != c.cid), evs := o1.evs ++ [s!"closed:{c.cid}"] }
+              some { o1 with subs := o1.subs.filter (fun s => s.1 != c.cid),
+                             evs := if c.crel then o1.evs else o1.evs ++ [s!"closed:{c.cid}"] }
             else some o1
           | _ => some (setConn o i { c with st := t })
     go prio
@@ -279,6 +288,8 @@ def release (o : O) : O := Id.run do
     | some c =>
       if c.held then
         o := { (setConn o i { c with held := false }) with evs := o.evs ++ [s!"exit:{c.cid}"], subs := (c.cid, "lc/hold") :: o.subs }
+      else if c.cheld && !c.crel then
+        o := { (setConn o i { c with crel := true }) with evs := o.evs ++ [s!"cdone:{c.cid}"] }
     | none => pure ()
   return o
 
